@@ -8,7 +8,8 @@ EXTENDS ZUrlLayout, Json
 
 MCDirs == {<<"T">>, <<"T", "d1">>, <<"T", "d1", "d2">>, <<"T", "d3">>}
 MCCwds == MCDirs \cup {<<"O">>}
-MCShapes == {"rel", "dot", "updown", "dotdot"}
+MCCwds2 == {<<"T", "d1">>, <<"O">>}
+MCShapes == {"rel", "dot", "updown", "dotdot", "abs", "url"}
 MCKinds == {"abs", "rel", "url", "fobj-abs", "fobj-rel"}
 
 Emit == LDone => PrintT(ToJson([res |-> scn.res, shape |-> scn.shape, kind |-> scn.kind, cwd |-> scn.cwd,
